@@ -117,6 +117,7 @@ structure PhySt where
   alen : Nat := 0
   nblocks : Nat := 0                    -- interleaved only
   blockAlen : Nat := 0                  -- interleaved only
+  nw : Nat := 10                        -- `namewidth = (afp->fmtd.namewidth ? afp->fmtd.namewidth : 10)`: 10 unless autodetection found another width
 deriving Repr
 
 /-- outcome of a read before the pushed-back line is returned to the stream -/
@@ -155,14 +156,14 @@ def phyHeader (st : PhySt) (line : Bytes) : Sum PhySt PRes :=
 /-- the name field at the start of a line: length check, `phylip_rectify_input_name`, `esl_msa_SetSeqName(msa, idx, …)`;
     gives the new `sqname[]` and the rest of the line -/
 def phyName (st : PhySt) (line : Bytes) : Sum (List (Option Bytes) × Bytes) PRes :=
-  if line.length < nameWidth then .inr (.eformat phyMsgShort)
+  if line.length < st.nw then .inr (.eformat phyMsgShort)
   else
-    match rectifyName (line.take nameWidth) with
+    match rectifyName (line.take st.nw) with
     | none => .inr (.eformat phyMsgName)
     | some nm =>
       if st.idx ≥ st.nseq then .inr .exc                           -- esl_msa_SetSeqName: idx >= msa->sqalloc
       else if st.idx ≥ st.names.length then .inr .fault            -- msa->sqname[idx]
-      else .inl (st.names.set st.idx (some nm), line.drop nameWidth)
+      else .inl (st.names.set st.idx (some nm), line.drop st.nw)
 
 /-- the name field is read only on some lines (`if (nblocks == 0)` / `if (alen == 0)`) -/
 def phyNameIf (b : Bool) (st : PhySt) (line : Bytes) : Sum (List (Option Bytes) × Bytes) PRes :=
@@ -332,5 +333,10 @@ def phyUnput (x : PRes × List Bytes) : Res Msa × List Bytes :=
     lines: outcome and the lines left for the next read -/
 def phylipRead (sequential : Bool) (cfg : Cfg) (lines : List Bytes) : Res Msa × List Bytes :=
   phyUnput (runLines (phylipStep sequential cfg) (phylipFinish sequential cfg) {} lines)
+
+/-- the same with the name width format autodetection stored in `afp->fmtd.namewidth` (`0` = unset = 10) -/
+def phylipReadW (namewidth : Nat) (sequential : Bool) (cfg : Cfg) (lines : List Bytes) : Res Msa × List Bytes :=
+  phyUnput (runLines (phylipStep sequential cfg) (phylipFinish sequential cfg)
+    { nw := if namewidth == 0 then 10 else namewidth } lines)
 
 end EaselModel.Msafile
